@@ -9,6 +9,7 @@ if [ ! -d $WT ]; then
   cp /repo/Cargo.lock $WT/ 2>/dev/null
   P=/verif/seeded/$name/patch.diff
   [ -f $P ] || P=/verif/seeded/_incoming/${name%-*}/${name#*-}/patch.diff
+  [ -f /verif/seeded/_incoming/${name%-*}/${name#*-}/patch.rebased.diff ] && P=/verif/seeded/_incoming/${name%-*}/${name#*-}/patch.rebased.diff
   ( cd $WT && (git apply $P 2>/dev/null || git apply --3way $P >/dev/null 2>&1) ) || { echo PATCH-FAILED; exit 2; }
 fi
 for c in "$@"; do
